@@ -22,8 +22,10 @@ from fractions import Fraction
 from .. import sx
 from ..impl import run_impl
 from ..model import run_model
+from . import _c12_gen
 
 ASSUMPTIONS = [
+    _c12_gen.ASSUMPTION,
     'the theorems that link analytic integrals to Riemann integrals (C12_polynomial1d_integral_is_riemann, C12_polynomial_family_integral_is_iterated_riemann, C12_iterated_integral_1d/_2d, C12_cornerpeak_integral_is_iterated_riemann, C12_cornerpeak_eval_is_real_function, C12_productpeak_/_discontinious_/_c0_/_expvar_integral_is_iterated_riemann, C12_separable_iterated_integral) use the real-number axioms of the Coq standard library (ClassicalDedekindReals.sig_not_dec, sig_forall_dec, FunctionalExtensionality.functional_extensionality_dep, Classical_Prop.classic) through Coquelicot; every other theorem is closed under the global context',
     'iterated Riemann integral over a box (one is_RInt per variable); its identification with the integral over the box (Fubini) is not formalised',
     'GenzProductPeak/GenzDiscontinious/GenzC0/FunctionExpVar theorems are about real-number transcriptions of the Python loops (not executable, tied to the float code by reading and the numeric cross-check)',
@@ -2199,7 +2201,9 @@ ALL_CACHE_CLASSES = ['ConstantValue', 'FunctionDiagonalDiscont', 'FunctionShift'
 
 
 def run(chk):
-    chk.coq_obligations()
+    gen_info = _c12_gen.regenerate(chk)      # source-derived cache machine: regenerated BEFORE the obligations are rebuilt
+    chk.coq_obligations(extra_props=_c12_gen.EXTRA_PROPS)
+    gen_problem = _c12_gen.diagnose(chk, gen_info)
     rng = chk.rng
     n_cache = chk.n(740, 17000)
     n_int = chk.n(300, 6000)
@@ -2259,6 +2263,7 @@ def run(chk):
     chk.extra['phase_seconds'] = dict(cache_histories=round(t1 - t0, 1), integrals=round(time.time() - t1, 1), shrinking=round(_SHRINK_T[0], 1))
     chk.extra['tolerances'] = dict(values_rtol=RTOL, values_atol=ATOL, integral_rtol=INT_RTOL, scipy_quadrature_rtol=1e-6,
                                    simplex_indicator_rtol=2e-2)
+    _c12_gen.finish(chk, gen_info, gen_problem)     # broken source-derived obligation and no concrete failing input found above
     chk.record_cases(len(ccases), k1,
                      'cache machine: every built-in class of Function.py (33), point dimension 1..5, 1..30 ops from {single, batch, empty batch, '
                      'direct eval_vectorized on 2-d and nested 3-d arrays, reset, deactivate, size, debug flag, switch to another live object '
